@@ -40,12 +40,12 @@ def floors(tier):
 def plan(tier, seed):
     rng = random.Random(f'C18-plan-{seed}')
     if tier == 'quick':
-        cfgs = gen.sig_orderings(1, 3) + rng.sample(gen.sig_orderings(4, 4), 24)
-        cfgs += [gen.random_custom_cfg(rng, rng.choice((2, 3, 3, 4))) for _ in range(24)] + gen.NAMED[:2]
+        cfgs = gen.sig_orderings(1, 3) + rng.sample(gen.sig_orderings(4, 4), 60)
+        cfgs += [gen.random_custom_cfg(rng, rng.choice((2, 3, 3, 4))) for _ in range(60)] + gen.NAMED[:2]
         cfgs += [{'p': 2, 'q': 1, 'r': 0, 'start_index': 0}, {'p': 1, 'q': 1, 'r': 1, 'start_index': 2}]
         ecfgs = [{'p': 3, 'q': 0, 'r': 0}, {'p': 2, 'q': 0, 'r': 1}, {'p': 1, 'q': 1, 'r': 1}, {'signature': [1, -1]}, {'named': '2DPGA'},
                  {'p': 3, 'q': 0, 'r': 1}, {'signature': [-1, 1, 0]}, gen.random_custom_cfg(rng, 3)]
-        per = 4
+        per = 8
     else:
         cfgs = gen.sig_orderings(1, 4) + rng.sample(gen.sig_orderings(5, 5), 60) + gen.pqr_all(5, 5)
         cfgs += [gen.random_custom_cfg(rng, rng.choice((2, 3, 3, 4, 4))) for _ in range(200)] + gen.NAMED
